@@ -16,6 +16,9 @@ import FordModel.DocConvert
 import FordModel.Lemmas.DocConvert
 import FordModel.AttachIface
 import FordModel.Lemmas.AttachIface
+import FordModel.Lemmas.ReaderQuote
+import FordModel.IncludeMarks
+import FordModel.Lemmas.IncludeMarks
 namespace Ford.C03
 open Ford
 
@@ -586,5 +589,139 @@ example : (mdConvert ⟨[("r1".toList, "http://x/other".toList)], [("1".toList, 
 example : mdAlone ["a[^1] [b][r1] [c][r2] ABX".toList, [], "[^1]: foot words".toList, [],
                    "[r1]: http://x/u1".toList, "*[ABX]: title words".toList]
     = ⟨["http://x/u1".toList], ["foot words".toList], ["title words".toList]⟩ := by decide
+
+/-! ## Text of character literals is never documentation (`_contains_unterminated_string`, `in_quote`) -/
+
+/-- When is the statement collected so far inside a character literal: cut it into closed literals - each
+    runs from a quote character to the next occurrence of the *same* character, whatever lies between, the
+    other quote character in particular - and other characters (`Lits P`).  If nothing is left over, it is
+    not inside a literal ... -/
+theorem closed_literals_are_not_open (P : Str) (h : Lits P) : unterminated P = false :=
+  unterminated_lits P h
+
+/-- ... and if a quote character without a partner follows, it is - however many quote characters of
+    either kind `P` and `body` contain (the counts of `'` and `"` may both be even, as in
+    `'say "' // "hello`). -/
+theorem open_literal_after_closed_ones (P : Str) (q : Char) (body : Str) (h : Lits P)
+    (hq : isQuote q = true) (hb : q ∉ body) : unterminated (P ++ q :: body) = true :=
+  unterminated_lits_open P q body h hq hb
+
+/-- **A `!` + marker inside a literal that is continued on the next line is text, for every marker
+    configuration.**  First physical line `l0`: no doc comment on it, code part `x r &` where `x r` is closed
+    literals and other text `P` followed by a literal opened with `q` and not closed.  Second line `ln`:
+    ANY text (not a preprocessor line) whose stripped form is `& b` - `b` may contain `!` followed by the doc
+    marker, the pre-marker, either alternate marker, or nothing.  Read between two logical lines, the two
+    lines give the statement(s) of the joined text `x r b` and nothing else: no part of `ln` becomes a doc
+    item, and the reader is between logical lines again for `rest`. -/
+theorem continued_literal_text_is_not_documentation (m : Marks) (l0 : Str) (x : Char) (r P : Str) (q : Char)
+    (body ln b : Str) (rest : List Str)
+    (h0 : NoDoc m false l0) (hc0 : codeOf false l0 = x :: r ++ ['&']) (hx : x ≠ '&')
+    (hP : x :: r = P ++ q :: body) (hl : Lits P) (hq : isQuote q = true) (hbq : q ∉ body)
+    (hfirst : firstStripped ln ≠ some '#') (hln : strip ln = '&' :: b)
+    (hb : isBlank b = false) (hlast : b.getLast? ≠ some '&')
+    (hJ : itemsOf (' ' :: x :: r ++ b) ≠ []) :
+    readFrom m (qs [] false) (l0 :: ln :: rest) =
+      match readFrom m (qs [] false) rest with
+      | .error e => .error e
+      | .ok more => .ok (itemsOf (' ' :: x :: r ++ b) ++ more) :=
+  readFrom_open_literal m l0 x r P q body ln b rest h0 hc0 hx hP hl hq hbq hfirst hln hb hlast hJ
+
+/-- Reader and parser together: a declaration whose literal is continued like that, followed by whatever
+    reads as the doc lines `ds` and then `more`: the entities it declares get exactly `ds` - no word of the
+    literal - and every entity that existed before is unchanged. -/
+theorem continued_literal_declaration_keeps_its_docstring (c : Char) (m : Marks) (l0 : Str) (x : Char)
+    (r P : Str) (q : Char) (body ln b : Str) (rest ds more : List Str) (s : ASt) (it : Str) (ns : List Str)
+    (sp : Bool)
+    (h0 : NoDoc m false l0) (hc0 : codeOf false l0 = x :: r ++ ['&']) (hx : x ≠ '&')
+    (hP : x :: r = P ++ q :: body) (hl : Lits P) (hq : isQuote q = true) (hbq : q ∉ body)
+    (hfirst : firstStripped ln ≠ some '#') (hln : strip ln = '&' :: b)
+    (hb : isBlank b = false) (hlast : b.getLast? ≠ some '&')
+    (hJ : itemsOf (' ' :: x :: r ++ b) = [it])
+    (hnd : it.take 2 ≠ ['!', c]) (hcl : classify it = .leafAll ns sp) (hne : ns ≠ [])
+    (hrest : readFrom m (qs [] false) rest = .ok (ds.map (fun d => '!' :: c :: d) ++ more)) :
+    ∃ items, readFrom m (qs [] false) (l0 :: ln :: rest) = .ok items ∧
+      attachFrom [c] s items =
+        attachFrom [c] { stack := s.stack, reading := ns.length,
+                         ents := s.ents ++ ns.map (fun n => ⟨n, sp, ds, []⟩) } more := by
+  refine ⟨it :: (ds.map (fun d => '!' :: c :: d) ++ more), ?_, ?_⟩
+  · rw [readFrom_open_literal m l0 x r P q body ln b rest h0 hc0 hx hP hl hq hbq hfirst hln hb hlast
+      (by rw [hJ]; simp), hrest, hJ]
+    rfl
+  · exact attach_leaf_docstring c s it ns sp ds more hnd hcl hne
+
+/-- worked instance (non-default markers `doc = ^`, `pre = <`, `alt = ~`, `preAlt = $`): both quote counts
+    of the first line are even, its last literal is open; the continuation line holds `!^`, `!<`, `!~`,
+    `!$` and a plain `!` - all literal text; the declaration gets its own comment only -/
+example :
+    let m : Marks := { doc := ['^'], pre := ['<'], alt := ['~'], preAlt := ['$'] }
+    (match readAll m ["character(len=*), parameter :: g = 'say \"' // \"hello &".toList,
+                      "     &world !^ zulu !< a !~ b !$ c ! d\"".toList, "  !^ alpha bravo".toList] with
+     | .ok items => (attach ['^'] items).map (fun e => (e.name, e.init))
+     | .error _ => [])
+      = [("<file>".toList, []), ("g".toList, [" alpha bravo".toList])] := by
+  decide
+
+/-- non-vacuity of the two theorems above: the lines of that instance satisfy the hypotheses -/
+example :
+    let m : Marks := { doc := ['^'], pre := ['<'], alt := ['~'], preAlt := ['$'] }
+    let l0 := "g = 'say \"' // \"hello &".toList
+    NoDoc m false l0 ∧ codeOf false l0 = "g = 'say \"' // \"hello ".toList ++ ['&'] ∧
+    Lits "g = 'say \"' // ".toList ∧ '"' ∉ "hello ".toList ∧
+    strip "   &world !^ zulu\"".toList = '&' :: "world !^ zulu\"".toList ∧
+    classify "g = 'say \"' // \"hello world !^ zulu\"".toList = .other ∧
+    classify "character(len=3) :: g = 'a, h :: b', k = \"x => (\"".toList = .leafAll ["g".toList, "k".toList] true := by
+  refine ⟨by simp only [NoDoc]; decide, by decide, ?_, by decide, by decide, by decide, by decide⟩
+  exact .plain _ _ (by decide) (.plain _ _ (by decide) (.plain _ _ (by decide) (.plain _ _ (by decide)
+    (.quoted '\'' "say \"".toList " // ".toList (by decide) (by decide)
+      (.plain _ _ (by decide) (.plain _ _ (by decide) (.plain _ _ (by decide) (.plain _ _ (by decide) .nil))))))))
+
+
+/-! ## Included files are read under the project's marker rules (`FortranReader.include`) -/
+
+/-- The nested reader that `include()` constructs for an included file gets the enclosing reader's doc
+    marker, pre-marker, alternate marker and alternate pre-marker, each in its own place (`Gen.includeMarkSrc`
+    is regenerated from the code on every run by probing the constructor call). -/
+theorem included_file_read_with_same_markers (m : Marks) : IncMarks.nestedMarks Gen.includeMarkSrc m = m := by
+  cases m; rfl
+
+/-- Hence reading a source file through any nesting of `include` lines is the reading in which every file
+    is read under the one marker configuration (C02's `Include.readFS`): every statement about how doc
+    comments are read - the four styles, the marker substitution, the hand-over order of preceding blocks -
+    holds inside included files as it does in the file that includes them. -/
+theorem include_reads_every_file_under_the_same_rules (c : Include.Cfg) (fs : Include.FS) (d : Nat) (m : Marks)
+    (lines : List Str) :
+    IncMarks.readFSM Gen.includeMarkSrc c fs d m lines = Include.readFS c m fs d lines :=
+  IncMarks.readFSM_eq_readFS Gen.includeMarkSrc included_file_read_with_same_markers c fs d m lines
+
+/-- what goes wrong when one marker is not handed over (the alternate pre-marker left at the constructor's
+    default, "switched off"): the `!$` block in the included file is no documentation any more - the entity it
+    was written for gets nothing -/
+theorem include_marker_not_handed_over_witness :
+    let m : Marks := { doc := ['^'], pre := ['<'], alt := ['~'], preAlt := ['$'] }
+    let fs : Include.FS := [("p.inc".toList, ["!$ hotel".toList, "! india".toList, "integer :: v".toList])]
+    let main := ["module mm".toList, "include 'p.inc'".toList, "end module".toList]
+    let docs := fun tbl => match IncMarks.readFSM tbl Include.readerCfg fs 3 m main with
+      | .ok items => (attach ['^'] items).map (fun e => (e.name, e.init))
+      | .error _ => []
+    docs Gen.includeMarkSrc = [("<file>".toList, []), ("mm".toList, []), ("v".toList, [" hotel".toList, " india".toList])] ∧
+    docs [.inl 0, .inl 1, .inl 2, .inr []] = [("<file>".toList, []), ("mm".toList, []), ("v".toList, [])] := by
+  decide
+
+/-- worked instance: an included file (included from an included file) with all four styles under
+    non-default markers; every entity gets its own comment (the blank line after the `!~` block gives
+    `c` an empty doc line, as it does outside included files) -/
+example :
+    let m : Marks := { doc := ['^'], pre := ['<'], alt := ['~'], preAlt := ['$'] }
+    let fs : Include.FS :=
+      [("a.inc".toList, ["integer :: a".toList, "!^ da".toList, "include \"b.inc\"".toList]),
+       ("b.inc".toList, ["!< db".toList, "integer :: b".toList, "integer :: c".toList, "!~ dc1".toList, "! dc2".toList,
+                         "".toList, "!$ dd1".toList, "! dd2".toList, "integer :: d".toList])]
+    (match IncMarks.readFSM Gen.includeMarkSrc Include.readerCfg fs 4 m
+              ["module mm".toList, "INCLUDE 'a.inc'".toList, "end module".toList] with
+     | .ok items => (attach ['^'] items).map (fun e => (e.name, e.init))
+     | .error _ => [])
+      = [("<file>".toList, []), ("mm".toList, []), ("a".toList, [" da".toList]), ("b".toList, [" db".toList]),
+         ("c".toList, [" dc1".toList, " dc2".toList, []]), ("d".toList, [" dd1".toList, " dd2".toList])] := by
+  decide
 
 end Ford.C03
